@@ -23,6 +23,7 @@ META = {
     "required_counters": ["post_release_calls_checked", "close_calls_checked", "own_close_frames_seen"],
     "assumptions": [],
 }
+META["claim"] += " " + "Also: a third of the histories without the thread-safety locks (enable_multithread=False); reset as a transport fault for the release rules; close(timeout) against peers that stream for ever / answer late / end the stream, with socket timeouts None/0.3/1/5; close() racing with a reader thread that receives the server's close frame (DFS + random schedules at sync/IO granularity); close(timeout) on a real TLS connection against a peer that never reacts."
 
 CLIENT = ["send", "recv", "ping", "close", "close_code", "close_bad", "send_close", "shutdown"]
 SERVER = ["s_text", "s_ping", "s_close_body", "s_close", "s_eof", "s_reset"]
